@@ -198,6 +198,7 @@ CHECKS = {
             {"args": ["sched", "-n", str(n), "-len", "25", "-slots", "0"] + (["-faults", "1"] if pid == "C20" else [])},
             {"args": ["sched", "-n", str(n), "-len", "25", "-slots", "0", "-faults", "2" if pid == "C20" else "1"], "seed_off": 50},
             {"args": ["sched", "-n", str(n), "-len", "20", "-slots", "0", "-ties"] + (["-faults", "1"] if pid == "C20" else []), "seed_off": 70},
+            {"args": ["sched", "-cron", "-n", str(max(n // 3, 100)), "-len", "25", "-slots", "0"] + (["-faults", "1"] if pid == "C20" else []), "seed_off": 90},
         ])({"quick": 500, "thorough": 20000, "widen": 3000}[tier]))(pid),
         "rule": "the real Scheduler over the real observable repository (in-memory + hook timer, virtual clock), a "
                 "call-logging proxy and a simulated dispatcher with 1..3 slots: random scripts of user mutations, "
@@ -205,7 +206,9 @@ CHECKS = {
                 "(nil / error / ctx) with user mutations, faults (error before / after effect, hook GetNext fault, "
                 "context cancellation) injected before any of the scheduler's repository / dispatcher calls, ending "
                 "in a fair fault-free quiescence phase; every call, result, returned state, work start and the final "
-                "dump are replayed on Gk.World, and the monitors run on the implementation's own lines",
+                "dump are replayed on Gk.World, and the monitors run on the implementation's own lines; one run drives "
+                "the cron configuration (Scheduler over VolatileTaskRepo over a real CronStore with EditTask injected "
+                "at call boundaries) with the monitors only - no model is replayed for it",
         "trusted_base": COMMON_TB + ["the dispatcher is simulated (contract of def.Dispatcher; the real one is tied by C08/C09)",
                                      "goroutine scheduling inside Step's select and the event queue is sampled, not proved"],
         "assumptions": ["driver policy: StartTimer once; a step that reported an error is retried before stepping on "
